@@ -34,6 +34,8 @@ func getEnv(r *mon.Run) *env {
 		for i, isd := range []int{1, 19, 65535} {
 			e.worlds = append(e.worlds, gen.NewWorld(pool, isd, worldEntities, worldVersions, i*100))
 		}
+		// a large ISD: TRCs with up to ~90 certificates (indices beyond 64)
+		e.worlds = append(e.worlds, gen.NewWorld(pool, 77, 30, worldVersions, 17))
 		theEnv = e
 	})
 	return theEnv
@@ -142,6 +144,12 @@ func (e *env) randomPayload(rng *rand.Rand, w *gen.World, o payloadOpts) *trcPla
 	nRoot := 1 + rng.IntN(3)
 	if rng.IntN(12) == 0 {
 		nRoot = 0
+	}
+	if nEnt >= 25 && rng.IntN(3) != 0 {
+		// large TRC: more than 64 certificates in most cases
+		nS = 20 + rng.IntN(nEnt-19)
+		nR = 20 + rng.IntN(nEnt-19)
+		nRoot = 20 + rng.IntN(nEnt-19)
 	}
 	t := &trcPlan{w: w, p: &gen.Payload{}}
 	ver := func() int {
